@@ -60,5 +60,5 @@ for p in props:
     except Exception as e:
         v = [{'key': 'CHECKER-ERROR %s' % str(e)[:100]}]
     tot += len(v)
-    print('%s: %d name-dependent instances %s' % (p, len(v), [x['key'][:70] for x in v[:4]]))
+    print('%s: %d name-dependent instances %s' % (p, len(v), [(x['key'][:70] if not os.environ.get('RP_FULL') else x['key'] + ' :: ' + str(x.get('message', x.get('msg', '')))[:400]) for x in v[:8]]))
 print('total', tot)
